@@ -50,6 +50,20 @@ CHECKS["C16"] = dict(
          "every run; every counterexample must reproduce on real pandas); the scan model.",
     design="4/C16")
 
+CHECKS["C15"] = dict(
+    level="model_checking", engine="X",
+    technique="CrossHair symbolic execution (z3) of the real LRUCache and GeneralLoader state machine (UnitLevelLoader, "
+              "ScopeIDToAvailableScopeIDsLoader over the real DataModel and a pandas/feather stand-in) over symbolic "
+              "save/get/export/restore histories with symbolic payloads; counterexamples replayed with real pandas and files",
+    text="Bounded model checking over histories: every history of save/get/export/checkpoint (export, export_indexing, "
+         "restore into a fresh loader) up to the stated length, for the listed cache capacities and MAX_ROWS values that "
+         "force multi-bundle output, with symbolic item payloads, must return the most recently saved content; LRUCache "
+         "is compared with an ordered model including eviction order. One concrete fault scenario (unwritable bundle) is "
+         "replayed on the real code. CONFIRMED = slice exhausted.",
+    note="Trusted: CrossHair/z3, the pandas/feather stand-in (validated under C16; counterexamples must reproduce with "
+         "real pandas and real files), the dictionary reference model. One open known finding (silent failed write).",
+    design="4/C15")
+
 NOT_APPLICABLE = {
     "C12": "A relation between two whole-pipeline runs on syntactically edited programs: the quantified objects are "
            "program texts and edit sequences; no run-time input, id, flag or history for a solver to range over; "
